@@ -10,6 +10,7 @@
 //          text: "args": [..]; "chunks": [n1,n2..] optional split of the bytes into several writes (ms gap 15)
 //          "wait": "reply" (block until the reply, at most tmax_ms) | "short" (at most short_ms; the command is expected to queue) | "none"
 //          "ms": sleep duration}
+// op "sync": wait until every command written on connection c so far has been answered (at most tmax_ms).
 // All scripts of a plan run concurrently (own connections, own keys), the steps of one script run strictly in order.
 //
 // Output per script: {"id", "steps": [{"i", "sent_ms", "reply": {...}|null, "reply_ms", "late": bool, "err": ""}],
@@ -423,6 +424,20 @@ func (r *runner) run() {
 		cn := r.conns[st.C]
 		if cn == nil {
 			r.out.Steps[si].Err = "no connection"
+			continue
+		}
+		if st.Op == "sync" { // wait until every command written on this connection so far has its reply (at most tmax_ms)
+			deadline := time.Now().Add(time.Duration(r.plan.TmaxMs) * time.Millisecond)
+			for time.Now().Before(deadline) {
+				cn.mu.Lock()
+				out := len(cn.byRid) > 0 || cn.nread < len(cn.order)
+				dead := cn.closed
+				cn.mu.Unlock()
+				if !out || dead {
+					break
+				}
+				time.Sleep(2 * time.Millisecond)
+			}
 			continue
 		}
 		if st.Op == "close" {
